@@ -37,7 +37,12 @@ func scribble(v reflect.Value, seen map[uintptr]bool, depth int) {
 			return
 		}
 		e := v.Elem()
-		if e.Kind() == reflect.Ptr || e.Kind() == reflect.Slice || e.Kind() == reflect.Map {
+		switch e.Kind() {
+		case reflect.Ptr, reflect.Slice, reflect.Map:
+			scribble(e, seen, depth+1)
+		case reflect.Struct, reflect.Array:
+			// a struct held by value in an interface is not addressable: what it points to can still be reached
+			// (the Struct case follows the pointers, slices and maps of a non-addressable value)
 			scribble(e, seen, depth+1)
 		}
 	case reflect.Struct:
@@ -80,6 +85,16 @@ func scribble(v reflect.Value, seen map[uintptr]bool, depth int) {
 		}
 		for _, k := range v.MapKeys() {
 			val := v.MapIndex(k)
+			if val.Kind() == reflect.Interface && !val.IsNil() && (val.Elem().Kind() == reflect.Struct || val.Elem().Kind() == reflect.Array) {
+				// a struct held by value behind an interface (core.UnsignedDataSet, core.ParSignedDataSet …): write into
+				// what it points to AND replace the entry by an overwritten copy, as a caller owning the map can
+				c := reflect.New(val.Elem().Type()).Elem()
+				c.Set(val.Elem())
+				scribble(c, seen, depth+1)
+				v.SetMapIndex(k, c)
+
+				continue
+			}
 			switch val.Kind() {
 			case reflect.Ptr, reflect.Slice, reflect.Map, reflect.Interface:
 				scribble(val, seen, depth+1)
